@@ -1,3 +1,4 @@
 pub mod c07;
+pub mod c19;
 pub mod c20;
 pub mod common;
